@@ -870,7 +870,7 @@ def reuse_part(prop, tier, seed):
     part["solvers"] = [K.SOLVER]
     thorough = tier == "thorough"
     pth, cmd = _ir()
-    budget = 700 if thorough else 80
+    budget = 700 if thorough else 420
     base = dict(kind='sread', ir=pth, seed=seed, budget_s=budget, samples=(10 if thorough else 2), stride=(1 if thorough else 3),
                 xcheck=(2 if thorough else 0), xcheck_stride=5)
     specs = []
@@ -901,7 +901,7 @@ def serializers_part(prop, tier, seed):
     part["solvers"] = [K.SOLVER]
     thorough = tier == "thorough"
     pth, cmd = _ir()
-    budget = 700 if thorough else 80
+    budget = 700 if thorough else 420
     base = dict(ir=pth, seed=seed, budget_s=budget, samples=(10 if thorough else 2), stride=(1 if thorough else 3),
                 xcheck=(2 if thorough else 0), xcheck_stride=5)
     specs = []
